@@ -838,6 +838,8 @@ class Interp:
         import enum
         if isinstance(v, enum.Enum):
             return str(v)
+        if isinstance(v, (set, frozenset, tuple, list, dict)):
+            return str(v)
         raise Unsupported(f"str() of {type(v).__name__}")
 
     def py_repr(self, v):
@@ -857,6 +859,8 @@ class Interp:
             return SStr(Z.str_of(v.t))
         if isinstance(v, (SList, SDict, SSet, SSeq)):
             return SStr(self.fresh("repr_of_container", z3.StringSort()))
+        if isinstance(v, (set, frozenset, tuple, list, dict, type)) or isinstance(v, __import__("enum").Enum):
+            return repr(v)
         raise Unsupported(f"repr() of {type(v).__name__}")
 
     def concat(self, parts):
@@ -1088,6 +1092,10 @@ class Interp:
             return list(it)
         if isinstance(it, type) and hasattr(it, "__members__"):
             return list(it)
+        if it is None or isinstance(it, (bool, int, float, SBool, SInt, SFloat)) or _is_singleton(it):
+            self.raise_(TypeError, f"'{type(it).__name__}' object is not iterable")
+        if isinstance(it, SV):
+            return self.iterate(self.view(it))
         raise Unsupported(f"iteration over {type(it).__name__}")
 
     def exec_for(self, st, fr):
